@@ -710,6 +710,201 @@ func (c *Ctx) providerErrors(rule string) {
 	}
 }
 
+// providerUIDVerbatim: the provider detail functions report as the user's id
+// the "id" member of the provider's answer exactly as it was sent: the value
+// stored under the uid key is a load of a field of the decoded answer whose
+// type is a plain string decoded by encoding/json itself (no conversion
+// function in between, no custom UnmarshalJSON/UnmarshalText on the field's
+// type that could round, fold or re-format the id).
+func (c *Ctx) providerUIDVerbatim(rule string) {
+	r := c.R
+	uidKey := c.P.ConstString("oauth2", "OAuth2UID")
+	n := 0
+	for _, fn := range c.P.Funcs {
+		if pkgOf(fn) != "ab/oauth2" || fn.Parent() != nil {
+			continue
+		}
+		res := fn.Signature.Results()
+		if res.Len() != 2 || !IsErrorType(res.At(1).Type()) || !strings.HasPrefix(res.At(0).Type().String(), "map[string]string") {
+			continue
+		}
+		for _, b := range fn.Blocks {
+			for _, in := range b.Instrs {
+				mu, ok := in.(*ssa.MapUpdate)
+				if !ok {
+					continue
+				}
+				if k, isC := ConstStr(mu.Key); !isC || k != uidKey {
+					continue
+				}
+				n++
+				v := mu.Value
+				conv := ""
+				for {
+					switch x := v.(type) {
+					case *ssa.ChangeType:
+						v = x.X
+						continue
+					case *ssa.Convert:
+						conv = x.X.Type().String() + " → " + x.Type().String()
+						v = x.X
+						continue
+					}
+					break
+				}
+				ld, isLd := v.(*ssa.UnOp)
+				var fa *ssa.FieldAddr
+				if isLd {
+					fa, _ = ld.X.(*ssa.FieldAddr)
+				}
+				if fa == nil {
+					r.Bad(rule, FuncName(fn), "details[uid]", posf(c, mu), "the id reported for the user is not a member of the provider's decoded answer taken as it is ("+SafeString(mu.Value)+"): a transformed id can merge distinct users into one account")
+					continue
+				}
+				ft := ld.Type()
+				why := ""
+				if bt, isB := ft.Underlying().(*types.Basic); !isB || bt.Kind() != types.String {
+					why = "the id member is decoded as " + ft.String() + ", not as a string"
+				}
+				if named, isN := ft.(*types.Named); isN {
+					ms := types.NewMethodSet(types.NewPointer(named))
+					for i := 0; i < ms.Len(); i++ {
+						if mn := ms.At(i).Obj().Name(); mn == "UnmarshalJSON" || mn == "UnmarshalText" {
+							why = "the id member's type " + named.Obj().Name() + " decodes itself (" + mn + "): the id is no longer taken as the provider sent it"
+						}
+					}
+				}
+				_ = conv
+				r.Check(why == "", rule, FuncName(fn), "details[uid]", posf(c, mu), "the provider's id member, a plain string, as decoded", why+": ids the provider distinguishes can collapse into one (e.g. numbers rounded through float64)")
+			}
+		}
+	}
+	if n == 0 {
+		r.Info(rule, "ab/oauth2", "provider detail functions", "-", "no provider detail function stores a uid")
+	}
+}
+
+// lockedResponseFixed: what the lock routine sends to a locked account does
+// not depend on anything the submitted password can influence. The routine
+// runs for both password outcomes and updates the lock state differently for
+// them (a wrong password re-arms the lock and raises the count), so a
+// response built from that state — the remaining lock time, the attempt
+// count, the last-attempt time — or from the outcome flag or the clock tells
+// the two outcomes apart. Every field of the RedirectOptions it answers with
+// must therefore be free of those sources.
+func (c *Ctx) lockedResponseFixed(rule string) {
+	r := c.R
+	fail := c.P.FuncOpt("(*ab/lock.Lock).AfterAuthFail")
+	if fail == nil {
+		return
+	}
+	uls := c.P.FuncOpt("(*ab/lock.Lock).updateLockedState")
+	if uls == nil {
+		uls = c.calleeWith(fail, func(f *ssa.Function) bool { return len(c.userCalls(f, "PutAttemptCount")) > 0 })
+	}
+	if uls == nil {
+		r.Unknown(rule, "ab/lock", "lock-state routine", "-", "not found")
+		return
+	}
+	name := FuncName(uls)
+	n := 0
+	for _, call := range Calls(uls) {
+		if Callee(call) != fnRedirect {
+			continue
+		}
+		opts := Arg(call, 2)
+		u, ok := opts.(*ssa.UnOp)
+		if !ok {
+			continue
+		}
+		a, ok := u.X.(*ssa.Alloc)
+		if !ok || a.Referrers() == nil {
+			continue
+		}
+		for _, ref := range *a.Referrers() {
+			fa, ok := ref.(*ssa.FieldAddr)
+			if !ok || fa.Referrers() == nil {
+				continue
+			}
+			for _, rr := range *fa.Referrers() {
+				st, ok := rr.(*ssa.Store)
+				if !ok {
+					continue
+				}
+				n++
+				var bad []string
+				seen := map[ssa.Value]bool{}
+				var walk func(v ssa.Value, d int)
+				walk = func(v ssa.Value, d int) {
+					if v == nil || d > 14 || seen[v] {
+						return
+					}
+					seen[v] = true
+					switch x := v.(type) {
+					case *ssa.Parameter:
+						if len(uls.Params) > 0 && v == ssa.Value(uls.Params[len(uls.Params)-1]) && isBoolType(v.Type()) {
+							bad = append(bad, "the password outcome")
+						}
+					case *ssa.Call:
+						cc := x.Common()
+						if cc.IsInvoke() {
+							switch cc.Method.Name() {
+							case "GetLocked", "GetAttemptCount", "GetLastAttempt":
+								bad = append(bad, "the lock state ("+cc.Method.Name()+")")
+							}
+							return // other accessors and interface calls: configuration, localisation
+						}
+						if Callee(x) == "time.Now" {
+							bad = append(bad, "the clock")
+							return
+						}
+						for _, a := range cc.Args {
+							walk(a, d+1)
+						}
+					case *ssa.BinOp:
+						walk(x.X, d+1)
+						walk(x.Y, d+1)
+					case *ssa.UnOp:
+						if x.Op == token.MUL {
+							return // a load: configuration fields, package-level texts
+						}
+						walk(x.X, d+1)
+					case *ssa.Convert:
+						walk(x.X, d+1)
+					case *ssa.ChangeType:
+						walk(x.X, d+1)
+					case *ssa.MakeInterface:
+						walk(x.X, d+1)
+					case *ssa.Extract:
+						walk(x.Tuple, d+1)
+					case *ssa.Phi:
+						for _, e := range x.Edges {
+							walk(e, d+1)
+						}
+						// what decides between the operands
+						for _, p := range x.Block().Preds {
+							if len(p.Instrs) > 0 {
+								if ifi, ok := p.Instrs[len(p.Instrs)-1].(*ssa.If); ok {
+									walk(ifi.Cond, d+1)
+								}
+							}
+						}
+					case *ssa.Slice:
+						for _, e := range varargElems(x) {
+							walk(e, d+1)
+						}
+					}
+				}
+				walk(st.Val, 0)
+				r.Check(len(bad) == 0, rule, name, "RedirectOptions."+fieldName(fa), posf(c, st), "does not depend on the lock state, the outcome or the clock", "the response to a locked account is built from "+strings.Join(uniq(bad), ", ")+", which differs between a correct and a wrong password (a wrong one re-arms the lock): the response reveals whether the password was right")
+			}
+		}
+	}
+	if n == 0 {
+		r.Info(rule, name, "RedirectOptions", "-", "the lock routine builds no redirect of its own")
+	}
+}
+
 // refusalConfigMapped: every module that protects its routes with the
 // authentication middleware passes, as the refusal mode, what the
 // configuration says: Modules.ResponseOnUnauthed when it is set, otherwise a
